@@ -5,6 +5,7 @@ from mindsdb_sql.exceptions import PlanningException
 from mindsdb_sql.parser.ast import (Identifier, Operation, Star, Select, BinaryOperation, Constant,
                                     OrderBy, UnaryOperation, NullConstant, TypeCast, Parameter)
 from mindsdb_sql.parser import ast
+from mindsdb_sql.parser.dialects.mindsdb.knowledge_base import CreateKnowledgeBase
 
 
 # def get_integration_path_from_identifier(identifier):
@@ -300,6 +301,33 @@ def query_traversal(node, callback, is_table=False, is_target=False, parent_quer
             node_out = query_traversal(node.where, callback, parent_query=node)
             if node_out is not None:
                 node.where = node_out
+
+    elif isinstance(node, ast.Show):
+        # SHOW ... WHERE <condition>
+        if node.where is not None:
+            node_out = query_traversal(node.where, callback, parent_query=node)
+            if node_out is not None:
+                node.where = node_out
+
+    elif isinstance(node, ast.Set):
+        # SET a = <value>, or a list of such items
+        if node.set_list is not None:
+            array = []
+            for node2 in node.set_list:
+                node_out = query_traversal(node2, callback, parent_query=node) or node2
+                array.append(node_out)
+            node.set_list = array
+        if isinstance(node.value, ast.ASTNode):
+            node_out = query_traversal(node.value, callback, parent_query=node)
+            if node_out is not None:
+                node.value = node_out
+
+    elif isinstance(node, CreateKnowledgeBase):
+        # CREATE KNOWLEDGE_BASE ... FROM ( select )
+        if node.from_query is not None:
+            node_out = query_traversal(node.from_query, callback, parent_query=node)
+            if node_out is not None:
+                node.from_query = node_out
 
     elif isinstance(node, ast.OrderBy):
         if node.field is not None:
